@@ -33,7 +33,7 @@ func init() {
 			if m.C("overlapping_calls") < 10000 {
 				u = append(u, fmt.Sprintf("only %d overlapping calls", m.C("overlapping_calls")))
 			}
-			for _, c := range []string{"histories_sequential", "histories_concurrent", "snapshots_compared", "calls_eval", "calls_tryeval", "calls_dump", "calls_dumptable", "calls_failing", "programs_deep_stack", "programs_big_list_constants", "programs_event_mode", "race_histories", "list_bindings_from_refilled_buffers", "fresh_context_set_flows"} {
+			for _, c := range []string{"histories_sequential", "histories_concurrent", "snapshots_compared", "calls_eval", "calls_tryeval", "calls_dump", "calls_dumptable", "calls_failing", "programs_deep_stack", "programs_big_list_constants", "programs_event_mode", "race_histories", "list_bindings_from_refilled_buffers", "fresh_context_set_flows", "programs_self_recursive"} {
 				if m.C(c) == 0 {
 					u = append(u, c+" = 0")
 				}
@@ -58,6 +58,7 @@ type c07Prog struct {
 	cc        *eval.Config
 	keys      map[string]eval.VariableKey
 	expectNo  Outcome // TryEval in isolation with no variable available
+	selfRec   bool    // uses cself (needs the harness's own fetcher)
 }
 
 func outcomeEq(a, b Outcome) bool {
@@ -95,7 +96,18 @@ func bigStrList(r *rand.Rand, n int) []string {
 	return l
 }
 
+func g0pick(r *rand.Rand, s ...string) string { return s[r.Intn(len(s))] }
+
 func c07Tree(r *rand.Rand, k int) (*Node, string) {
+	if k%23 == 11 {
+		// a recursive rule: while b0 holds, the value is what the same expression gives once b0 is false
+		base := Op(g0pick(r, "+", "add", "*"), TInt, Var("i0", TInt), Lit(int64(2+r.Intn(5))))
+		t := If(Var("b0", TBool), Op("cself", TInt), base)
+		if r.Intn(2) == 0 {
+			t = Op("+", TInt, Lit(int64(1)), t, Var("i1", TInt))
+		}
+		return t, "self-recursive"
+	}
 	switch k % 9 {
 	case 7, 8:
 		// large unsorted list constants on either side of the scan/hash switch, against list variables
@@ -186,6 +198,10 @@ func c07Build(w *W, r *rand.Rand, k int) *c07Prog {
 	for n, k := range shared.CC.VariableKeyMap {
 		p.keys[n] = k
 	}
+	p.selfRec = stratum == "self-recursive"
+	if p.selfRec {
+		w.Inc("programs_self_recursive")
+	}
 	if p.events {
 		w.Inc("programs_event_mode")
 	}
@@ -230,8 +246,26 @@ func c07Build(w *W, r *rand.Rand, k int) *c07Prog {
 			b.Avail = av
 		}
 		var ex [2]Outcome
-		ex[0], _ = callExpr(iso.E, CallEval, fetcherFor(Binding{Vals: b.Vals}, nil), nil, p.events)
-		ex[1], _ = callExpr(iso.E, CallTryEval, fetcherFor(b, nil), nil, p.events)
+		f0, f1 := fetcherFor(Binding{Vals: b.Vals}, nil), fetcherFor(b, nil)
+		f0.Self, f1.Self = iso.E, iso.E
+		if stratum == "self-recursive" && p.events {
+			// the nested evaluation reports on the same channel: drained by a counting consumer
+			ch := make(chan eval.Event, 64)
+			iso.E.EventChan = ch
+			done := make(chan struct{})
+			go func() {
+				for range ch {
+				}
+				close(done)
+			}()
+			ex[0] = guard(func() (eval.Value, error) { return iso.E.Eval(&eval.Ctx{VariableFetcher: f0}) })
+			ex[1] = guard(func() (eval.Value, error) { return iso.E.TryEval(&eval.Ctx{VariableFetcher: f1}) })
+			close(ch)
+			<-done
+		} else {
+			ex[0], _ = callExpr(iso.E, CallEval, f0, nil, p.events)
+			ex[1], _ = callExpr(iso.E, CallTryEval, f1, nil, p.events)
+		}
 		p.bindings = append(p.bindings, b)
 		p.expect = append(p.expect, ex)
 	}
@@ -390,7 +424,7 @@ func c07Run(w *W, idx int, race bool) {
 					res.overlapping++
 				}
 				switch {
-				case kind == 10 && p.cfg.Undefined:
+				case kind == 10 && p.cfg.Undefined && !p.selfRec:
 					// (only where NewCtxFromVars gives a map-backed context: a slice-backed one reports every registered
 					// key as cached and cannot express "not available")
 					// the remote-call flow with the library's own context: a fresh context without values, TryEval,
@@ -435,7 +469,9 @@ func c07Run(w *W, idx int, race bool) {
 				case kind < 5:
 					tr.MaxStack = p.maxStack
 					tr.Begin()
-					ctx := &eval.Ctx{VariableFetcher: fetcherFor(Binding{Vals: b.Vals}, nil), Ctx: ctxWithTracer(tr)}
+					fe := fetcherFor(Binding{Vals: b.Vals}, nil)
+					fe.Self = p.e
+					ctx := &eval.Ctx{VariableFetcher: fe, Ctx: ctxWithTracer(tr)}
 					if gr.Intn(2) == 0 {
 						// the caller recycles one Ctx object for all its calls and only replaces what it holds
 						reuse.VariableFetcher, reuse.Ctx = ctx.VariableFetcher, ctx.Ctx
@@ -459,7 +495,9 @@ func c07Run(w *W, idx int, race bool) {
 				case kind < 8:
 					tr.MaxStack = p.maxStack
 					tr.Begin()
-					ctx := &eval.Ctx{VariableFetcher: fetcherFor(b, nil), Ctx: ctxWithTracer(tr)}
+					ft := fetcherFor(b, nil)
+					ft.Self = p.e
+					ctx := &eval.Ctx{VariableFetcher: ft, Ctx: ctxWithTracer(tr)}
 					if gr.Intn(2) == 0 {
 						reuse.VariableFetcher, reuse.Ctx = ctx.VariableFetcher, ctx.Ctx
 						ctx = reuse
